@@ -56,6 +56,10 @@ func c05Cases(cfg vlib.Cfg) []*c05Spec {
 		switch {
 		case i == 0:
 			sp = c05TimeoutCase(r)
+		case i%40 == 7:
+			sp = c05DoneStormCase(r)
+		case i%40 == 27:
+			sp = c05SlotStarveCase(r)
 		case i%3 == 1:
 			sp = c05PairCase(r, i/3)
 		case i%30 == 11:
@@ -395,6 +399,60 @@ func c05StaleCtrlFnCase(r *vlib.Rand) *c05Spec {
 		ms.Items = append(ms.Items, &c05Item{ID: fmt.Sprintf("by%d", j), Kind: vlib.Pick(r, kWorker, "mt_start_med"), Wait: "ctx", FromStart: true, Settled: true, Cycle: 1})
 	}
 	sp.Mods = []*c05Mod{ms, dep}
-	sp.Hooks = append(sp.Hooks, &hookRule{Point: "modules.ctrlfn.done", Subject: "ma", Mode: "until", Until: "stopfn.begin|ma", AfterUs: 300, MaxMs: 300})
+	if r.Bool() {
+		sp.Hooks = append(sp.Hooks, &hookRule{Point: "modules.ctrlfn.done", Subject: "ma", Mode: "until", Until: "stopfn.begin|ma", AfterUs: 300, MaxMs: 300})
+	} else {
+		// behind the hand-over of the result: the start goroutine's completion check runs
+		// while the stop routine of the same module is running
+		sp.Class = "pair:start-check-until-stopfn-begin:ctrlfn"
+		sp.Hooks = append(sp.Hooks, &hookRule{Point: "modules.ctrlfn.sent", Subject: "ma", Mode: "until", Until: "stopfn.begin|ma", AfterUs: 300, MaxMs: 2000})
+	}
+	return sp
+}
+
+// c05DoneStormCase: done() of signalled microtasks called concurrently before the stop,
+// then microtasks with staggered lingers running at the stop (see doneStorm).
+func c05DoneStormCase(r *vlib.Rand) *c05Spec {
+	sp := &c05Spec{Class: "donestorm", Limit: 64, StopTimeoutMs: c05StopTimeoutMs, StopVia: "shutdown"}
+	dep := &c05Mod{Name: "m0", StopDelayMs: 0}
+	dep.Items = append(dep.Items, &c05Item{ID: "m0-w", Kind: kWorker, Settled: true, Wait: "ctx", Cycle: 1})
+	ms := &c05Mod{Name: "ma", Deps: []string{"m0"}, StopDelayMs: vlib.Pick(r, 0, 1), StopNil: r.Chance(1, 4)}
+	kinds := []string{"mt_start_med", "mt_run_low", "mt_sig_high", "mt_start_high", "mt_run_med", "mt_sig_low"}
+	for j, l := range []int{5, 20, 40, 60, 80, 100} {
+		ms.Items = append(ms.Items, &c05Item{ID: fmt.Sprintf("ma-mt%d", j), Kind: kinds[(j+r.Intn(6))%6], Settled: true, Wait: "ctx", LingerMs: l, Cycle: 1, DoneCalls: 1})
+	}
+	sp.Mods = []*c05Mod{ms, dep}
+	sp.DoneStorm = &doneStorm{Mod: "ma", N: 200, Callers: r.Range(2, 4)}
+	if r.Chance(1, 3) {
+		sp.Mgmt, sp.StopVia, sp.Disable = true, "manage", []string{"ma"}
+	}
+	return sp
+}
+
+// c05SlotStarveCase: all microtask slots are taken, so the task queue handler has
+// cleared a task of module ma for execution but waits for a task timeslot; ma is stopped
+// in that state; the slots are released when ma's stop routine has returned. The task must
+// neither run nor hold up the stop.
+func c05SlotStarveCase(r *vlib.Rand) *c05Spec {
+	sp := &c05Spec{Class: "slotstarve", Limit: 2, StopTimeoutMs: c05StopTimeoutMs, StopVia: "shutdown"}
+	dep := &c05Mod{Name: "m0", StopDelayMs: 0}
+	ms := &c05Mod{Name: "ma", Deps: []string{"m0"}, StopDelayMs: vlib.Pick(r, 0, 1, 5)}
+	holder := dep // the slots are held by microtasks of the dependency (stops later) or of ma itself
+	if r.Bool() {
+		holder = ms
+	}
+	for j := 0; j < 2; j++ {
+		holder.Items = append(holder.Items, &c05Item{ID: fmt.Sprintf("hold%d", j), Kind: vlib.Pick(r, "mt_start_med", "mt_start_low", "mt_run_med"), Settled: true,
+			Wait: "latch", Latch: "stopfn.end|ma", LingerMs: vlib.Pick(r, 0, 1, 5), Cycle: 1})
+	}
+	ms.Items = append(ms.Items, &c05Item{ID: "qt", Kind: vlib.Pick(r, kTaskQ, kTaskP, kTaskA), Settled: false, Wait: "self", Cycle: 1})
+	if r.Bool() {
+		ms.Items = append(ms.Items, &c05Item{ID: "ma-w", Kind: kWorker, Settled: true, Wait: "ctx", LingerMs: 1, Cycle: 1})
+	}
+	sp.Mods = []*c05Mod{ms, dep}
+	sp.WaitHit = "modules.task.cleared|qt"
+	if r.Bool() {
+		sp.Mgmt, sp.StopVia, sp.Disable = true, "manage", []string{"ma"}
+	}
 	return sp
 }
